@@ -343,8 +343,26 @@ func (fm *Server) Close(ctx context.Context) error {
 
 func (fm *Server) mount(ctx context.Context, mountpoint string, labels map[string]string) error {
 	// mountpoint in fsMap means layer is already mounted, skip it
-	if _, found := fm.fsMap.Load(mountpoint); found {
-		return nil
+	if obj, found := fm.fsMap.Load(mountpoint); found {
+		mounts, err := mountinfo.GetMounts(func(info *mountinfo.Info) (skip, stop bool) {
+			if info.Mountpoint == mountpoint {
+				return false, true
+			}
+			return true, false
+		})
+		if err != nil {
+			return err
+		}
+		if len(mounts) > 0 {
+			return nil
+		}
+		// The mount has been removed outside of this manager (e.g. the snapshotter
+		// unmounts everything under its root before restoring). Release the stale
+		// one and mount it again.
+		if err := obj.(snapshot.FileSystem).Unmount(ctx, mountpoint); err != nil {
+			log.G(ctx).WithError(err).Debugf("failed to release stale mount")
+		}
+		fm.fsMap.Delete(mountpoint)
 	}
 
 	if fm.curFs == nil {
